@@ -17,13 +17,13 @@ C = {
  "C03": ("rapid generated D-values, differential oracle: pion Marshal vs independently written RFC encoder, octet by octet with a don't-care mask for unspecified padding octets",
          "Exploration: every D-value is encoded by pion and by refmodel (written from the RFC layouts, int arithmetic, no shared code); outputs must agree on every octet the specifications define. This sees layout errors made symmetrically in encoder and decoder, which no round trip can.",
          REF),
- "C04": ("rapid generated D-values x RFC-permitted variant encodings produced by the reference encoder (alternative TWCC chunkings, unnormalised REMB, padded APP, non-zero reserved bits, unknown XR blocks, stray CCFB bits, BYE reason forms) + count-inflated SR/RR/SDES/BYE, oracle: decoded fields == model / must-reject",
+ "C04": ("rapid generated D-values x RFC-permitted variant encodings produced by the reference encoder (alternative TWCC chunkings, unnormalised REMB, padded APP, non-zero reserved bits, unknown XR blocks, stray CCFB bits, BYE reason forms) + count-inflated SR/RR/SDES/BYE, oracle: decoded fields == model / must-reject; plus a differential on damaged frames (rapid, and Go native coverage-guided fuzzing in the thorough tier): frames accepted by both the library and the reference decoder must decode to equal values",
          "Exploration: the decoder is fed encodings its own encoder never produces, built by the reference from a model value, through both decode paths; every semantic field must equal the model. Variants: TWCC chunkings, unnormalised REMB, padded APP, RFC 3550 padding on every other type, reserved bits, unknown XR blocks, stray CCFB bits, BYE reason forms, frames of 64 KiB and more. Count-inflated headers must be rejected.",
          "Variants are RFC-permitted forms only (the statement's list plus RFC 3550 padding on any packet); " + REF),
  "C05": ("rapid generated values incl. deliberately unaligned variable-length parts, intrinsic oracle: len == MarshalSize, multiple of 4, header fields, Header()/Len() accessors, exactly one frame under an independent splitter",
          "Exploration: every value for which Marshal succeeds (D plus SR/RR extensions of every length mod 4, odd XR chunk counts, unknown XR bodies of any length, odd CCFB/TWCC element counts) is checked for size/alignment/header consistency and that an independent frame splitter sees exactly one frame.",
          "PT/FMT table from the RFCs (refmodel.PTFMT); rapid v1.3.0; Go toolchain."),
- "C06": ("rapid generated frame sequences with fault injection (truncation, surplus octets, overlong header, malformed frame), metamorphic oracle: Unmarshal(a||b) == Unmarshal(a) ++ Unmarshal(b), locality per frame, error+nil on any fault",
+ "C06": ("rapid generated frame sequences with fault injection (truncation, surplus octets, overlong header, malformed frame), metamorphic oracle: Unmarshal(a||b) == Unmarshal(a) ++ Unmarshal(b), locality per frame, error+nil on any fault; plus an acceptance differential on damaged single frames (rapid, and Go native coverage-guided fuzzing in the thorough tier): whatever the library accepts must be well-formed under the reference decoder's tolerant reading",
          "Exploration: sequences of 1..12 frames of all types (reference encodings, pion encodings, raw frames) are concatenated; each returned packet must equal the decode of its frame alone, every split point must commute with concatenation, and any injected fault or an empty datagram must yield an error and no packets; frames that are well-formed by construction must be accepted; structurally inconsistent frames (REMB with surplus words, XR with an over-long block, CCFB announcing more metric blocks than fit) must be rejected alone and inside a datagram. Frames are delimited by the reference splitter, not by pion.",
          REF),
  "C07": ("exhaustive enumeration of all 256 PT x 32 FMT header cells + all ordered pairs of packet types with generated bodies, oracle: reference dispatch table / must-reject",
